@@ -2,6 +2,7 @@ import UralModel.Lemmas.CanonRoundTrip
 import UralModel.Lemmas.QuoteIdem
 import UralModel.Lemmas.QuoteRoundTrip
 import UralModel.Lemmas.Normpath
+import UralModel.Lemmas.CanonModes
 /-!
 # The printed result of `canonicalize_url` is a fixed point of its cleaning pass
 
@@ -846,6 +847,257 @@ theorem cleanUrl_printed_id (hup : UpFacts p) (hpath : PathIdem)
   unfold Canonicalize.cleanUrl
   rw [stripControl_id hctl, strip_id _ hhead hlast, upperQuoted_of_upperEsc hup', heq]
   exact ensureProtocol_id (lower S) _ dp hsne hlow (by rw [lower_length]; exact hS.2)
+
+end
+
+/-! ## the component rules are idempotent on what the parser reads back -/
+
+theorem strOf_canonOpt_some (U : List UInt8) (x : Str) :
+    strOf (canonOpt false (safelyUnquote U) (some x)) = safelyUnquote U x := by
+  by_cases hx : x.isEmpty = true
+  · have : x = [] := by simpa using hx
+    subst this
+    simp [canonOpt, strOf_some, safelyUnquote_nil]
+  · simp [canonOpt, hx, strOf_some, requote]
+
+theorem getD_canonOpt_some (U : List UInt8) (x : Str) :
+    (canonOpt false (safelyUnquote U) (some x)).getD [] = safelyUnquote U x := by
+  by_cases hx : x.isEmpty = true
+  · have : x = [] := by simpa using hx
+    subst this
+    simp [canonOpt, safelyUnquote_nil]
+  · simp [canonOpt, hx, requote]
+
+theorem unq_strOf_canonOpt (U : List UInt8) (hU : (0x25 : UInt8) ∈ U) (hA : AsciiSet U)
+    (o : Option Str) :
+    safelyUnquote U (strOf (canonOpt false (safelyUnquote U) o)) =
+      strOf (canonOpt false (safelyUnquote U) o) := by
+  cases o with
+  | none => simp [canonOpt, strOf_none, safelyUnquote_nil]
+  | some x => rw [strOf_canonOpt_some, safelyUnquote_idem' U hU hA]
+
+theorem canonHost_nil (puny : Str → Str) : canonHost puny [] = [] := by
+  simp [canonHost, decodePunycodeHostname, splitOn_nil, join, Py.lower]
+
+/-- the host rule on the (falsy = empty) host component -/
+def hostRule (puny : Str → Str) (o : Option Str) : Option Str :=
+  match o with
+  | some h => if h.isEmpty then some h else some (canonHost puny h)
+  | none => none
+
+theorem canonComps_host (puny : Str → Str) (quoted sf : Bool) (p : Parsed) :
+    (canonComps puny quoted sf p).host = hostRule puny p.hostname := by
+  simp only [canonComps, hostRule]
+  cases p.hostname <;> rfl
+
+theorem strOf_hostRule (puny : Str → Str) (o : Option Str) :
+    strOf (hostRule puny o) = canonHost puny (strOf o) := by
+  cases o with
+  | none => simp [hostRule, strOf_none, canonHost_nil]
+  | some x =>
+    by_cases hx : x.isEmpty = true
+    · have : x = [] := by simpa using hx
+      subst this
+      simp [hostRule, strOf_some, canonHost_nil]
+    · simp [hostRule, hx, strOf_some]
+
+/-- the canonical query is empty exactly when the query is -/
+theorem canonQuery_isEmpty (q : Str) : (canonQuery false q).isEmpty = q.isEmpty := by
+  have hitems := canonQuery_items false q
+  by_cases hq : q = []
+  · subst hq
+    have : canonQuery false [] = [] := by
+      simp [canonQuery, safeQslIter, splitOn_nil, cutFirst, unquoteQsl, safeSerializeQsl, join,
+        unquoteQueryItem, safelyUnquote_nil]
+    rw [this]
+  · have hne : canonQuery false q ≠ [] := by
+      intro he
+      apply hq
+      rw [he] at hitems
+      have h0 : safeQslIter ([] : Str) = [([], none)] := by
+        simp [safeQslIter, splitOn_nil, cutFirst]
+      rw [h0] at hitems
+      rw [safeQslIter_eq] at hitems
+      -- one item, with an empty key and no value
+      have hpieces := join_splitOn '&' q
+      cases hsp : splitOn q '&' with
+      | nil => exact absurd hsp (splitOn_ne_nil q '&')
+      | cons item rest =>
+        rw [hsp] at hitems hpieces
+        cases rest with
+        | cons _ _ => simp at hitems
+        | nil =>
+          simp only [List.map_cons, List.map_nil, List.cons.injEq, and_true, pctItem,
+            Prod.mk.injEq] at hitems
+          have hs := splitFirst_spec '=' item
+          have hk : (cutFirst '=' item).1 = [] := CanonRoundTrip.pctStr_eq_nil hitems.1.symm
+          cases hv : (cutFirst '=' item).2 with
+          | some v => rw [hv] at hitems; simp at hitems
+          | none =>
+            rw [hv] at hs
+            rw [← hpieces]
+            simp only [join]
+            rw [hs.2, hk]
+    cases hc : canonQuery false q with
+    | nil => exact absurd hc hne
+    | cons a b =>
+      cases q with
+      | nil => exact absurd rfl hq
+      | cons c d => rfl
+
+theorem asciiSet_auth : AsciiSet Gen.Quote.unsafeForAuthItem := by unfold AsciiSet; decide
+theorem asciiSet_fragment : AsciiSet Gen.Quote.unsafeForFragment := by unfold AsciiSet; decide
+
+theorem unqF_eq_nil {y : Str} (h : unquoteFragment y = []) : y = [] := by
+  apply CanonRoundTrip.pctStr_eq_nil
+  rw [← pctStr_safelyUnquote Gen.Quote.unsafeForFragment (by decide) y]
+  show pctStr (unquoteFragment y) = []
+  rw [h]; rfl
+
+/-- the "has more" flag of the second pass is that of the first -/
+theorem hasMore_reparsed (puny : Str → Str) (sf : Bool) (p : Parsed) :
+    (!(canonQuery false p.query).isEmpty ||
+        truthy (if sf then none else some ((canonOpt false unquoteFragment
+          (if sf then none else some p.fragment)).getD []))) =
+      (!p.query.isEmpty || truthy (if sf then none else some p.fragment)) := by
+  rw [canonQuery_isEmpty]
+  cases sf with
+  | true => rfl
+  | false =>
+    simp only [Bool.false_eq_true, if_false]
+    congr 1
+    have e : (canonOpt false unquoteFragment (some p.fragment)).getD [] = unquoteFragment p.fragment :=
+      getD_canonOpt_some _ _
+    rw [e]
+    simp only [truthy]
+    cases hf : p.fragment with
+    | nil => simp [unquoteFragment, safelyUnquote_nil]
+    | cons c r =>
+      cases hu : unquoteFragment (c :: r) with
+      | nil => exact absurd (unqF_eq_nil hu) (by simp)
+      | cons a b => rfl
+
+section
+variable {puny : Str → Str} (hpl : PunyLaws puny) (sf : Bool) (p : Parsed)
+include hpl
+
+/-- **second pass on the components**: applying the component rules (unquoted mode) to what
+the parser reads back from the printed result prints the same URL again — userinfo items and
+fragment by `safelyUnquote_idem`, host by `canonHost_idem`, port (already stripped of the
+default), path by `PathIdem`, query by `canonQuery_idempotent` -/
+theorem canonParts_reparsed (hpath : PathIdem) (habs : AbsPath p.path) :
+    urlunsplit (canonParts puny false sf (reparsed (canonComps puny false sf p))) =
+      urlunsplit (canonParts puny false sf p) := by
+  have hU : (0x25 : UInt8) ∈ Gen.Quote.unsafeForAuthItem := by decide
+  have hF : (0x25 : UInt8) ∈ Gen.Quote.unsafeForFragment := by decide
+  rw [urlunsplit_eq_urlunsplit20, urlunsplit_eq_urlunsplit20]
+  -- netloc
+  have hnet : (canonParts puny false sf (reparsed (canonComps puny false sf p))).netloc =
+      (canonParts puny false sf p).netloc := by
+    rw [canonParts_netloc, canonParts_netloc, unsplitNetloc_eq, unsplitNetloc_eq,
+      canonComps_user, canonComps_pass, canonComps_host, canonComps_user, canonComps_pass,
+      canonComps_host]
+    have keyU : ∀ (cu cp : Option Str), cu = canonOpt false unquoteAuthItem p.username →
+        strOf (canonOpt false unquoteAuthItem
+          (if strOf cp ≠ [] ∨ strOf cu ≠ [] then some (strOf cu) else none)) = strOf cu := by
+      intro cu cp e
+      subst e
+      by_cases hc : strOf cp ≠ [] ∨ strOf (canonOpt false unquoteAuthItem p.username) ≠ []
+      · rw [if_pos hc]
+        have := strOf_canonOpt_some Gen.Quote.unsafeForAuthItem
+          (strOf (canonOpt false unquoteAuthItem p.username))
+        rw [show unquoteAuthItem = safelyUnquote Gen.Quote.unsafeForAuthItem from rfl] at *
+        rw [this]; exact unq_strOf_canonOpt _ hU asciiSet_auth _
+      · rw [if_neg hc]
+        simp only [not_or, Classical.not_not] at hc
+        rw [hc.2]; simp [canonOpt, strOf_none]
+    have keyP : ∀ (cp : Option Str), cp = canonOpt false unquoteAuthItem p.password →
+        strOf (canonOpt false unquoteAuthItem
+          (if strOf cp ≠ [] then some (strOf cp) else none)) = strOf cp := by
+      intro cp e
+      subst e
+      by_cases hc : strOf (canonOpt false unquoteAuthItem p.password) ≠ []
+      · rw [if_pos hc]
+        have := strOf_canonOpt_some Gen.Quote.unsafeForAuthItem
+          (strOf (canonOpt false unquoteAuthItem p.password))
+        rw [show unquoteAuthItem = safelyUnquote Gen.Quote.unsafeForAuthItem from rfl] at *
+        rw [this]; exact unq_strOf_canonOpt _ hU asciiSet_auth _
+      · rw [if_neg hc]
+        simp only [Classical.not_not] at hc
+        rw [hc]; simp [canonOpt, strOf_none]
+    have hu : strOf (canonOpt false unquoteAuthItem
+          (reparsed (canonComps puny false sf p)).username) =
+        strOf (canonOpt false unquoteAuthItem p.username) := by
+      simp only [reparsed]
+      rw [keyU _ _ (canonComps_user puny false sf p), canonComps_user]
+    have hp : strOf (canonOpt false unquoteAuthItem
+          (reparsed (canonComps puny false sf p)).password) =
+        strOf (canonOpt false unquoteAuthItem p.password) := by
+      simp only [reparsed]
+      rw [keyP _ (canonComps_pass puny false sf p), canonComps_pass]
+    have keyH : ∀ (ch : Option Str), ch = hostRule puny p.hostname →
+        strOf (hostRule puny (if strOf ch = [] then none else some (strOf ch))) = strOf ch := by
+      intro ch e
+      subst e
+      by_cases h0 : strOf (hostRule puny p.hostname) = []
+      · rw [if_pos h0, h0]; simp [hostRule, strOf_none]
+      · rw [if_neg h0, strOf_hostRule puny (some _), strOf_some, strOf_hostRule,
+          canonHost_idem puny hpl]
+    have hh : strOf (hostRule puny (reparsed (canonComps puny false sf p)).hostname) =
+        strOf (hostRule puny p.hostname) := by
+      simp only [reparsed]
+      rw [keyH _ (canonComps_host puny false sf p), canonComps_host]
+    have hport : (canonComps puny false sf (reparsed (canonComps puny false sf p))).port =
+        (canonComps puny false sf p).port := by
+      simp only [canonComps, reparsed]
+      cases p.port with
+      | none => rfl
+      | some n =>
+        by_cases hd : defaultPort p.scheme = some n
+        · simp [hd]
+        · simp [hd]
+    rw [hu, hp, hh, hport]
+  -- path
+  have hpa : (canonParts puny false sf (reparsed (canonComps puny false sf p))).path =
+      (canonParts puny false sf p).path := by
+    have e1 : ∀ (pp : Parsed), (canonParts puny false sf pp).path =
+        unquotePath (canonPath pp.path
+          (!pp.query.isEmpty || truthy (if sf then none else some pp.fragment))) := by
+      intro pp; simp [canonParts, canonComps]
+    rw [e1, e1]
+    have e2 : (reparsed (canonComps puny false sf p)).path = (canonParts puny false sf p).path := rfl
+    have e3 : (reparsed (canonComps puny false sf p)).query = canonQuery false p.query := rfl
+    have e4 : (reparsed (canonComps puny false sf p)).fragment =
+        (canonOpt false unquoteFragment (if sf then none else some p.fragment)).getD [] := rfl
+    rw [e2, e3, e4, hasMore_reparsed puny sf p, e1, hpath.unq _ _ habs, hpath.idem _ _ _ habs,
+      hpath.unq _ _ habs]
+  -- query
+  have hq : (canonParts puny false sf (reparsed (canonComps puny false sf p))).query =
+      (canonParts puny false sf p).query := by
+    rw [canonParts_query, canonParts_query]
+    have e3 : (reparsed (canonComps puny false sf p)).query = canonQuery false p.query := rfl
+    rw [e3]
+    exact canonQuery_modes false false p.query (fun hh => by cases hh)
+  -- fragment
+  have hf : (canonParts puny false sf (reparsed (canonComps puny false sf p))).fragment.getD [] =
+      (canonParts puny false sf p).fragment.getD [] := by
+    rw [canonParts_fragment, canonParts_fragment]
+    cases sf with
+    | true => rfl
+    | false =>
+      simp only [Bool.false_eq_true, if_false]
+      have e4 : (reparsed (canonComps puny false false p)).fragment =
+          (canonOpt false unquoteFragment (some p.fragment)).getD [] := rfl
+      rw [e4]
+      have g1 := getD_canonOpt_some Gen.Quote.unsafeForFragment p.fragment
+      have g2 := getD_canonOpt_some Gen.Quote.unsafeForFragment
+        (safelyUnquote Gen.Quote.unsafeForFragment p.fragment)
+      rw [show unquoteFragment = safelyUnquote Gen.Quote.unsafeForFragment from rfl]
+      rw [g1, g2]
+      exact safelyUnquote_idem' _ hF asciiSet_fragment _
+  have hs : (canonParts puny false sf (reparsed (canonComps puny false sf p))).scheme =
+      (canonParts puny false sf p).scheme := rfl
+  rw [hnet, hpa, hq, hf, hs]
 
 end
 
